@@ -5,6 +5,8 @@ from .. import conds
 from .common import *
 from .c03 import owner_counter_field
 
+CRATES = (EY,)
+
 META = {
     "explanation": (
         "Static reference ledger on MIR: R19.1 owner family - every construction of a SharedObservable takes `state` and the owner counter from "
@@ -153,7 +155,7 @@ def r19_3(ctx):
                 ctx.violated("R19.3", f, "strong-refs-per-subscriber=%d" % owned, where,
                              "`%s` stores %d owned handles of the shared state in one subscriber (the handle itself and a boxed `lock_owned()` future owning a clone): "
                              "every such subscriber adds %d to the strong count, so subscriber_count reports %d per subscriber and strong_count is not the sum" % (f.path, owned, owned, owned))
-    ctx.floor("R19.3", n, 2 if ctx.config == "default" else 4)
+    ctx.floor("R19.3", n, 2 if not ctx.has_async else 4)
 
 
 def r19_45(ctx):
